@@ -113,6 +113,39 @@ def correspondences(tier, rng):
                                      "raw" if actual == ob["raw"][t] else "recompiled" if actual == rec[t] else "other", ob["pre"], ob["side"])
         return True
     out.append(Corr("sim_save", cases, lambda x: 0, enc=enc_case, compare=cmp_case))
+    # sortedTagList: the order keys()/save()/reorderTables list the tables in; model data regenerated from TTFTableOrder/OTFTableOrder
+    from fontTools.ttLib.ttFont import sortedTagList, TTFTableOrder, OTFTableOrder
+    def tint(t): return int.from_bytes(t.encode("latin-1"), "big")
+    def ttag(i): return i.to_bytes(4, "big").decode("latin-1")
+    known = sorted(set(TTFTableOrder + OTFTableOrder + ["DSIG", "GSUB", "GPOS", "GDEF", "BASE", "name", "kern", "fvar", "gvar", "avar", "STAT",
+                                                        "HVAR", "MVAR", "COLR", "CPAL", "SVG ", "CFF2", "VORG", "vhea", "vmtx", "meta", "sbix"]))
+    cases = []
+    for i in range(N(tier, 1500, 20000)):
+        k = rng.randint(0, 14)
+        tags = set()
+        for _ in range(k):
+            if rng.chance(80): tags.add(rng.choice(known))
+            else: tags.add("".join(rng.choice("ABCZabcz019 /") for _ in range(4)))
+        tags = sorted(tags); rng.shuffle(tags)
+        order = None
+        if rng.chance(30):
+            pool = sorted(set(known[:] + tags)); rng.shuffle(pool); order = pool[:rng.randint(0, 12)]
+        cases.append((order, tags))
+    def enc_stl(x):
+        order, tags = x
+        return (Opt([tint(t) for t in order], some=True) if order is not None else Opt(None), [tint(t) for t in tags])
+    def impl_stl(x):
+        order, tags = x
+        return [tint(t) for t in sortedTagList(list(tags), None if order is None else list(order))]
+    def oracle_stl(x):
+        order, tags = x
+        got = sortedTagList(list(tags), None if order is None else list(order))
+        if sorted(got) != sorted(tags): return "sortedTagList dropped or repeated a table: %r -> %r" % (tags, got)
+        other = sortedTagList(list(reversed(tags)), None if order is None else list(order))
+        if other != got: return "sortedTagList depends on the order its input is listed in: %r vs %r" % (got, other)
+        if order is None and "DSIG" in tags and got[-1] != "DSIG": return "DSIG is not last: %r" % (got,)
+        return None
+    out.append(Corr("sortedTagList", cases, impl_stl, enc=enc_stl, oracle=oracle_stl))
     return out
 
 # ------------------------------------------------------------------ sweeps
